@@ -121,6 +121,21 @@ def make_instance(cls, rng, depth=2, fill=0.7, foreign=0.0, stats=None, want_tex
             inst.text = rng.choice(TEXT_SAMPLES) + gen.word(rng, 0, 4)
         except Exception:
             pass
+    if always_text and inst.text is not None and rng.random() < 0.4:
+        # a typed value whose type the library has no conversion for is still a value
+        try:
+            t = rng.choice(["xs:string", "xs:anyURI", "xs:dateTime", "xs:QName", "my:OwnType"])
+            if t.startswith("xs:"):
+                inst.set_type(t)
+            else:
+                # (set_type would also leave an 'xmlns:xs' pseudo-attribute behind, which is a namespace declaration and not content)
+                inst.extension_attributes = dict(inst.extension_attributes or {})
+                inst.extension_attributes.pop("xmlns:xs", None)
+                inst.extension_attributes["{http://www.w3.org/2001/XMLSchema-instance}type"] = t
+            if stats is not None:
+                stats["typed_attribute_values"] = stats.get("typed_attribute_values", 0) + 1
+        except Exception:
+            pass
     if foreign and rng.random() < foreign:
         if inst.extension_attributes is None:
             inst.extension_attributes = {}
